@@ -11,6 +11,7 @@ Locations:  ("local",i) ("deref",V) ("field",L,f) ("index",L,V) ("cidx",L,n,fe)
 Values: see the constructors below.
 """
 from .cfg import get_cfg
+from .purity import std_pure as _std_pure
 
 MISSING = ("missing",)
 
@@ -411,6 +412,7 @@ class Analysis:
     def call_value(self, st, t, args, site):
         callee = callee_of(t)
         f = t["f"]
+        t_aty = t.get("aty", [])
         if callee is None:
             return ("icall", self.operand(st, f["indirect"]), tuple(args), site)
         base = f["path"]
@@ -443,11 +445,17 @@ class Analysis:
                 t = t["to"]
             if t is not None and t["k"] == "array" and t["n"] >= 0:
                 return ("unsize", args[0], t["n"])
+        if base == "core::ops::try_trait::Try::branch":
+            return ("try", args[0])
         if base in PURE_STD and all(a[0] != "ref" for a in args):
             return ("call", callee, tuple(args), None)
-        if self.F is not None and callee in self.F.pure:
-            # pure in-crate function: identity of the call site is irrelevant; arguments that
-            # are references to locals are replaced by the value they point to
+        if self.F is not None and (callee in self.F.pure or (
+                callee not in self.F.fns and base not in self.F.fns and
+                (_std_pure(callee) or _std_pure(base)) and
+                not base.endswith(("::branch", "::from_residual")) and
+                not any(t.startswith("&mut") for t in t_aty))):
+            # pure function: identity of the call site is irrelevant; arguments that are
+            # references to locals are replaced by the value they point to
             a2 = []
             for a in args:
                 if a[0] == "ref":
@@ -455,8 +463,6 @@ class Analysis:
                 else:
                     a2.append(a)
             return ("call", callee, tuple(a2), None)
-        if base == "core::ops::try_trait::Try::branch":
-            return ("try", args[0])
         return ("call", callee, tuple(args), site)
 
     # ------------------------------------------------------------------ transfer
@@ -665,7 +671,10 @@ def walk(v, fn_):
             continue
         if isinstance(x[0], str):
             fn_(x)
-        for y in x[1:]:
+            rest = x[1:]
+        else:
+            rest = x
+        for y in rest:
             if isinstance(y, tuple):
                 stack.append(y)
 
